@@ -259,3 +259,20 @@ theorem update_none_apply (p : Params) : (Update.mk none none none none none).ap
   cases p; rfl
 
 end Retry
+
+namespace Retry
+
+/-- a retryable outcome on an attempt that is not the last one takes the sleep-and-retry step -/
+theorem classify_retry_of (c : Cfg) (k : Kind)
+    (h : (k = .dictFail ∧ c.retryOnError = true) ∨
+      ((k = .sockTimeout ∨ k = .connError ∨ k = .connTimeout ∨ k = .api408) ∧ c.retryOnTimeout = true)) :
+    classify c false k = .retrySleep := by
+  rcases h with ⟨hk, he⟩ | ⟨hk, ht⟩
+  · simp [hk, classify, he]
+  · rcases hk with hk | hk | hk | hk <;> simp [hk, classify, ht]
+
+/-- on the last attempt nothing is retried -/
+theorem classify_last_not_retry (c : Cfg) (k : Kind) : (classify c true k).isRetry = false := by
+  cases k <;> simp [classify, Step.isRetry]
+
+end Retry
